@@ -236,7 +236,7 @@ func runConc(p *concParams, prefix []int, extra func(w *harness.World, cr *concR
 						wo = &opt.WriteOptions{Sync: true}
 					}
 					durable := func(b model.Batch, call int64, err error) {
-						if err == nil && (wo != nil || t == "tr") {
+						if err == nil && (wo != nil || t == "tr" || t == "trq") {
 							vsched.Event(vsched.OpStorage, vsched.ObjStorage, false)
 							cr.Dur = append(cr.Dur, durRec{Batch: b, Call: call, Return: clock, AckPos: len(w.Stor.Ops)})
 						}
@@ -262,7 +262,7 @@ func runConc(p *concParams, prefix []int, extra func(w *harness.World, cr *concR
 						err := db.Delete([]byte(arg), wo)
 						record(ci, linInput{Kind: "write", Batch: b}, call, linOutput{Err: errStr(err)}, op)
 						durable(b, call, err)
-					case "w", "tr":
+					case "w", "tr", "trq":
 						var mb model.Batch
 						lb := new(leveldb.Batch)
 						for j, f := range strings.Split(arg, ",") {
@@ -273,7 +273,7 @@ func runConc(p *concParams, prefix []int, extra func(w *harness.World, cr *concR
 								v := fmt.Sprintf("%s.%d", val, j)
 								mb = append(mb, model.BatchOp{K: f[1:], V: v})
 								lb.Put([]byte(f[1:]), []byte(v))
-								if t == "tr" {
+								if t != "w" {
 									if cr.TrVals == nil {
 										cr.TrVals = map[string]bool{}
 									}
@@ -295,6 +295,11 @@ func runConc(p *concParams, prefix []int, extra func(w *harness.World, cr *concR
 							tr, err = db.OpenTransaction()
 							if err == nil {
 								err = tr.Write(lb, nil)
+								if t == "trq" {
+									// hold the write lock until every other client is parked behind it: the
+									// base schedule itself then contains a full queue of waiting writers
+									vsched.Quiesce()
+								}
 								if err == nil {
 									err = tr.Commit()
 								}
